@@ -1,31 +1,33 @@
-"""SMT back ends: z3 (Python API) + cvc5 (CLI) portfolio over SMT-LIB text.
+"""SMT back ends: z3 (Python API) + cvc5 (CLI) portfolio.
 
-Every verification condition is shipped to a worker process as SMT-LIB 2 text
-(so the same text can be shown as a sample in the evidence and fed to both
-solvers).  Verdicts:
-  'unsat'   proved (by z3 or cvc5)
-  'sat'     refuted at VC level (model attached when z3 produced it)
-  'unknown' neither solver decided within its budget
+Each VC is tried in two forms, both derived mechanically from the same hypotheses/schemas/goal:
+  * Q  - schemas kept as universally quantified hypotheses; cvc5 (E-matching).  Only `unsat` is used
+         from this form (a proof); `sat`/`unknown` are ignored.
+  * QF - schemas instantiated by pyvc.inst (quantifier-free); z3 and cvc5.  `unsat` is a proof,
+         `sat` is a refutation at VC level and comes with a z3 model (replayed on the real code).
+Verdicts: 'unsat' proved / 'sat' refuted / 'unknown' undecided / 'disagree' (checker error).
 """
 import os
 import re
 import subprocess
 import tempfile
+import threading
 import time
 import multiprocessing as mp
-import threading
 
 import z3
 
 CVC5 = "/usr/bin/cvc5"
 
 # budgets (seconds); sized ~10x the measured baseline so that verdicts do not flip under load
-Z3_T1 = float(os.environ.get("PYVC_Z3_T1", "20"))
-CVC5_T = float(os.environ.get("PYVC_CVC5_T", "60"))
-Z3_T2 = float(os.environ.get("PYVC_Z3_T2", "60"))
+Q_FAST = float(os.environ.get("PYVC_Q_FAST", "4"))
+Q_SLOW = float(os.environ.get("PYVC_Q_SLOW", "90"))
+Z3_QUICK = float(os.environ.get("PYVC_Z3_QUICK", "2"))
+Z3_T = float(os.environ.get("PYVC_Z3_T", "90"))
+CVC5_T = float(os.environ.get("PYVC_CVC5_T", "90"))
 
 
-def to_smt2(hyps, goal_neg, logic=None):
+def to_smt2(hyps, goal_neg):
     """SMT-LIB text of  hyps /\\ goal_neg  (goal_neg is the negated goal)."""
     s = z3.Solver()
     for h in hyps:
@@ -39,79 +41,83 @@ _NTH = re.compile(r"\bseq\.nth_[iu]\b")
 
 def sanitize_for_cvc5(text):
     text = _NTH.sub("seq.nth", text)
-    # z3 prints (declare-fun x () T); fine for cvc5.  Drop z3-only set-info lines.
     lines = [l for l in text.splitlines() if not l.startswith("(set-info")]
-    body = "\n".join(lines)
-    # z3 prints unicode escapes as \u{..} which cvc5 understands.
-    return "(set-logic ALL)\n" + body + "\n"
+    return "(set-logic ALL)\n" + "\n".join(lines) + "\n"
 
 
-def run_cvc5(text, timeout, want_model=False):
-    with tempfile.NamedTemporaryFile("w", suffix=".smt2", delete=False) as f:
+def quantified_text(vc):
+    qs = []
+    for sc in vc.schemas:
+        if not sc.vars:
+            qs.append(sc.body)
+        else:
+            qs.append(z3.ForAll(sc.vars, sc.body))
+    return to_smt2(list(vc.hyps) + qs, z3.Not(vc.goal))
+
+
+class Cvc5Job:
+    def __init__(self, text, timeout, label):
+        f = tempfile.NamedTemporaryFile("w", suffix=".smt2", delete=False)
         f.write(sanitize_for_cvc5(text))
-        path = f.name
-    try:
-        args = [CVC5, "--strings-exp", "--tlimit=%d" % int(timeout * 1000), path]
-        t0 = time.time()
+        f.close()
+        self.path, self.label, self.t0, self.timeout = f.name, label, time.time(), timeout
+        self.proc = subprocess.Popen([CVC5, "--strings-exp", "--tlimit=%d" % int(timeout * 1000), self.path],
+                                     stdout=subprocess.PIPE, stderr=subprocess.DEVNULL, text=True)
+        self.verdict = None
+
+    def poll(self):
+        if self.verdict is not None:
+            return self.verdict
+        if self.proc.poll() is None:
+            if time.time() - self.t0 > self.timeout + 5:
+                self.proc.kill()
+                self.verdict = "unknown"
+            return self.verdict
+        out = self.proc.stdout.read().strip().splitlines()
+        v = out[0].strip() if out else "unknown"
+        self.verdict = v if v in ("sat", "unsat") else "unknown"
+        return self.verdict
+
+    def wait(self):
+        while self.poll() is None:
+            time.sleep(0.02)
+        return self.verdict
+
+    def close(self):
+        if self.proc.poll() is None:
+            self.proc.kill()
         try:
-            out = subprocess.run(args, capture_output=True, text=True, timeout=timeout + 5)
-            res = out.stdout.strip().splitlines()
-            verdict = res[0].strip() if res else "unknown"
-            if verdict not in ("sat", "unsat"):
-                verdict = "unknown"
-            err = out.stderr.strip()[:300]
-        except subprocess.TimeoutExpired:
-            verdict, err = "unknown", "timeout"
-        return verdict, time.time() - t0, err
-    finally:
+            self.proc.communicate(timeout=2)
+        except Exception:
+            pass
         try:
-            os.unlink(path)
+            os.unlink(self.path)
         except OSError:
             pass
 
 
-def run_z3(text, timeout, seed=0):
-    ctx = z3.Context()
-    s = z3.Solver(ctx=ctx)
-    s.set("timeout", int(timeout * 1000))
-    if seed:
-        s.set("random_seed", seed)
-    t0 = time.time()
+def run_cvc5(text, timeout):
+    j = Cvc5Job(text, timeout, "cvc5")
     try:
-        s.from_string(text)
-        r = s.check()
-    except z3.Z3Exception as e:  # pragma: no cover
-        return "unknown", time.time() - t0, None, "z3 exception: %s" % e
-    verdict = str(r)
-    model = None
-    reason = ""
-    if verdict == "sat":
-        try:
-            m = s.model()
-            model = {}
-            for d in m.decls():
-                if d.arity() == 0:
-                    model[d.name()] = str(m[d])
-        except z3.Z3Exception:
-            model = None
-    elif verdict == "unknown":
-        reason = s.reason_unknown()
-    return verdict, time.time() - t0, model, reason
+        v = j.wait()
+        return v, time.time() - j.t0, ""
+    finally:
+        j.close()
 
 
-class _Z3Thread(threading.Thread):
-    def __init__(self, text, timeout, seed):
+class Z3Thread(threading.Thread):
+    def __init__(self, text, timeout, seed=0):
         super().__init__(daemon=True)
         self.text, self.timeout, self.seed = text, timeout, seed
         self.ctx = z3.Context()
         self.result = None
+        self.t0 = time.time()
 
     def run(self):
         s = z3.Solver(ctx=self.ctx)
         s.set("timeout", int(self.timeout * 1000))
         if self.seed:
             s.set("random_seed", self.seed)
-        t0 = time.time()
         try:
             s.from_string(self.text)
             r = str(s.check())
@@ -124,95 +130,141 @@ class _Z3Thread(threading.Thread):
                     model = None
             elif r == "unknown":
                 reason = s.reason_unknown()
-            self.result = (r, time.time() - t0, model, reason)
+            self.result = (r, time.time() - self.t0, model, reason)
         except z3.Z3Exception as e:
-            self.result = ("unknown", time.time() - t0, None, "z3 exception: %s" % e)
+            self.result = ("unknown", time.time() - self.t0, None, "z3 exception: %s" % e)
+
+    def stop(self):
+        if self.is_alive():
+            try:
+                self.ctx.interrupt()
+            except Exception:
+                pass
+            self.join(timeout=5)
+
+
+def run_z3(text, timeout, seed=0):
+    th = Z3Thread(text, timeout, seed)
+    th.run()
+    return th.result
 
 
 def solve_text(task):
-    """task = dict(name, text).  z3 quickly first; then z3 (thread) and cvc5 (process) race."""
-    text = task["text"]
-    out = {"name": task["name"], "sub": task.get("sub", 0)}
+    """QF text only (used for regex obligations): z3 quick, then z3 || cvc5."""
+    return _race(task["name"], None, task["text"], z3_only=task.get("z3_only", False), budgets=task)
+
+
+def _race(name, qtext, qf_builder, z3_only=False, budgets=None):
+    budgets = budgets or {}
+    out = {"name": name}
     trail = []
     t_start = time.time()
-    quick = min(2.0, task.get("z3_t1", Z3_T1))
-    v, t, model, reason = run_z3(text, quick)
-    trail.append(("z3", v, round(t, 3)))
-    backend = "z3"
-    if v == "unknown":
-        proc = None
-        path = None
-        ct = task.get("cvc5_t", CVC5_T)
-        zt = task.get("z3_t2", Z3_T2)
-        if not task.get("z3_only"):
-            f = tempfile.NamedTemporaryFile("w", suffix=".smt2", delete=False)
-            f.write(sanitize_for_cvc5(text))
-            f.close()
-            path = f.name
-            proc = subprocess.Popen([CVC5, "--strings-exp", "--tlimit=%d" % int(ct * 1000), path],
-                                    stdout=subprocess.PIPE, stderr=subprocess.PIPE, text=True)
-        th = _Z3Thread(text, zt, 3)
+    jobs = []
+    model, reason = None, ""
+    qf_text = None
+    ninst = 0
+    gen = 0.0
+    try:
+        # ---- stage A: quantified form, cvc5, short budget
+        jq = None
+        if qtext is not None and not z3_only:
+            jq = Cvc5Job(qtext, budgets.get("q_fast", Q_FAST), "cvc5-q")
+            jobs.append(jq)
+            v = jq.wait()
+            trail.append(("cvc5-q", v, round(time.time() - jq.t0, 3)))
+            if v == "unsat":
+                out.update(verdict="unsat", backend="cvc5-q", time=time.time() - t_start, model=None, trail=trail,
+                           ninst=0, gen_time=0.0, text=None)
+                return out
+            jq.close()
+            jq = Cvc5Job(qtext, budgets.get("q_slow", Q_SLOW), "cvc5-q")
+            jobs.append(jq)
+        # ---- stage B: quantifier-free form
+        if callable(qf_builder):
+            # weakening is sound for proofs: first try with only the hypotheses in the goal's cone of influence
+            t0 = time.time()
+            qf_text, ninst = qf_builder("sliced")
+            gen = time.time() - t0
+            r = run_z3(qf_text, budgets.get("z3_sliced", 5.0))
+            trail.append(("z3-sliced", r[0], round(r[1], 3)))
+            if r[0] == "unsat":
+                out.update(verdict="unsat", backend="z3", time=time.time() - t_start, model=None, trail=trail,
+                           ninst=ninst, gen_time=gen, text=qf_text)
+                return out
+            t0 = time.time()
+            qf_text, ninst = qf_builder(True)
+            gen = time.time() - t0
+            r = run_z3(qf_text, budgets.get("z3_quick", Z3_QUICK))
+            trail.append(("z3-rel", r[0], round(r[1], 3)))
+            if r[0] == "unsat":
+                out.update(verdict="unsat", backend="z3", time=time.time() - t_start, model=None, trail=trail,
+                           ninst=ninst, gen_time=gen, text=qf_text)
+                return out
+            # a `sat` here may be an artefact of the relevance filter: redo with the full instantiation
+            t0 = time.time()
+            qf_text, ninst = qf_builder(False)
+            gen += time.time() - t0
+        else:
+            qf_text = qf_builder
+        if jq is not None and jq.poll() == "unsat":
+            trail.append(("cvc5-q", "unsat", round(time.time() - jq.t0, 3)))
+            out.update(verdict="unsat", backend="cvc5-q", time=time.time() - t_start, model=None, trail=trail,
+                       ninst=ninst, gen_time=gen, text=None)
+            return out
+        r = run_z3(qf_text, budgets.get("z3_quick", Z3_QUICK))
+        trail.append(("z3", r[0], round(r[1], 3)))
+        if r[0] in ("sat", "unsat"):
+            out.update(verdict=r[0], backend="z3", time=time.time() - t_start, model=r[2], trail=trail,
+                       ninst=ninst, gen_time=gen, text=qf_text)
+            return out
+        th = Z3Thread(qf_text, budgets.get("z3_t", Z3_T), seed=3)
         th.start()
-        t1 = time.time()
-        v2 = None
-        try:
-            while True:
-                if th.result is not None and th.result[0] in ("sat", "unsat"):
-                    v, _, model, reason = th.result
-                    backend = "z3"
-                    trail.append(("z3#2", v, round(time.time() - t1, 3)))
+        jc = None
+        if not z3_only:
+            jc = Cvc5Job(qf_text, budgets.get("cvc5_t", CVC5_T), "cvc5")
+            jobs.append(jc)
+        verdict, backend = "unknown", "z3"
+        while True:
+            if th.result is not None and th.result[0] in ("sat", "unsat"):
+                verdict, backend, model = th.result[0], "z3", th.result[2]
+                trail.append(("z3#2", verdict, round(th.result[1], 3)))
+                break
+            if jq is not None and jq.poll() == "unsat":
+                verdict, backend = "unsat", "cvc5-q"
+                trail.append(("cvc5-q", "unsat", round(time.time() - jq.t0, 3)))
+                break
+            if jc is not None and jc.poll() in ("sat", "unsat"):
+                v2 = jc.verdict
+                trail.append(("cvc5", v2, round(time.time() - jc.t0, 3)))
+                if v2 == "unsat":
+                    verdict, backend = "unsat", "cvc5"
                     break
-                if proc is not None and v2 is None and proc.poll() is not None:
-                    so = proc.stdout.read()
-                    res = so.strip().splitlines()
-                    v2 = res[0].strip() if res else "unknown"
-                    if v2 not in ("sat", "unsat"):
-                        v2 = "unknown"
-                    trail.append(("cvc5", v2, round(time.time() - t1, 3)))
-                    if v2 == "unsat":
-                        v, backend = "unsat", "cvc5"
-                        break
-                    if v2 == "sat":
-                        # keep z3 running a little for a model / cross-check
-                        th.join(timeout=min(10.0, zt))
-                        if th.result is not None and th.result[0] == "unsat":
-                            out.update(verdict="disagree", backend="z3/cvc5", time=time.time() - t_start,
-                                       model=None, trail=trail)
-                            return out
-                        v, backend = "sat", "cvc5"
-                        model = th.result[2] if th.result is not None else None
-                        break
-                z3_done = th.result is not None
-                cvc5_done = proc is None or v2 is not None
-                if z3_done and cvc5_done:
-                    v, reason = "unknown", (th.result[3] if th.result else "")
-                    trail.append(("z3#2", "unknown", round(time.time() - t1, 3)))
-                    break
-                if time.time() - t1 > max(ct, zt) + 10:
-                    v = "unknown"
-                    break
-                time.sleep(0.05)
-        finally:
-            if th.is_alive():
-                try:
-                    th.ctx.interrupt()
-                except Exception:
-                    pass
-                th.join(timeout=5)
-            if proc is not None and proc.poll() is None:
-                proc.kill()
-            if proc is not None:
-                try:
-                    proc.communicate(timeout=2)
-                except Exception:
-                    pass
-            if path:
-                try:
-                    os.unlink(path)
-                except OSError:
-                    pass
-    out.update(verdict=v, backend=backend, time=time.time() - t_start, model=model, trail=trail, reason=reason)
-    return out
+                # sat from cvc5: give z3 a little longer for a model / cross-check
+                th.join(timeout=10.0)
+                if th.result is not None and th.result[0] == "unsat":
+                    out.update(verdict="disagree", backend="z3/cvc5", time=time.time() - t_start, model=None,
+                               trail=trail, ninst=ninst, gen_time=gen, text=qf_text)
+                    return out
+                verdict, backend = "sat", "cvc5"
+                model = th.result[2] if th.result is not None else None
+                break
+            done_z3 = th.result is not None
+            done_c = jc is None or jc.poll() is not None
+            done_q = jq is None or jq.poll() is not None
+            if done_z3 and done_c and done_q:
+                reason = th.result[3] if th.result else ""
+                trail.append(("all", "unknown", round(time.time() - t_start, 3)))
+                break
+            time.sleep(0.03)
+        th.stop()
+        if verdict == "sat" and jq is not None and jq.poll() == "unsat":
+            verdict, backend = "disagree", "cvc5-q/qf"
+        out.update(verdict=verdict, backend=backend, time=time.time() - t_start, model=model, trail=trail,
+                   reason=reason, ninst=ninst, gen_time=gen, text=qf_text)
+        return out
+    finally:
+        for j in jobs:
+            j.close()
 
 
 _VCS = None
@@ -220,25 +272,69 @@ _ROUNDS = 2
 
 
 def _solve_vc(idx):
-    """Worker (forked after VC generation, so the z3 terms are inherited): instantiate, print, solve."""
+    """Worker (forked after VC generation, so the z3 terms are inherited): print, instantiate, solve."""
     from . import inst
     vc = _VCS[idx]
-    t0 = time.time()
-    ground = list(vc.hyps) + [vc.goal]
-    if "goal_terms" in vc.meta:
-        ground.append(vc.meta["goal_terms"] == vc.meta["goal_terms"])
-    extra = list(vc.extra_terms) + list(vc.meta.get("extra_terms", []))
-    insts = inst.instantiate(ground, vc.schemas, rounds=vc.meta.get("rounds", _ROUNDS), extra_terms=extra)
-    text = to_smt2(list(vc.hyps) + insts, z3.Not(vc.goal))
-    gen = time.time() - t0
-    task = {"name": vc.name, "text": text, "z3_only": vc.meta.get("z3_only", False)}
-    for k in ("z3_t1", "cvc5_t", "z3_t2"):
-        if k in vc.meta:
-            task[k] = vc.meta[k]
-    r = solve_text(task)
-    r.update(idx=idx, ninst=len(insts), gen_time=gen, size=len(text))
-    if vc.meta.get("keep_text") or r["verdict"] != "unsat":
-        r["text"] = text
+
+    def consts_of(e, cache={}):
+        i = e.get_id()
+        r = cache.get(i)
+        if r is None:
+            r = set()
+            stack, seen = [e], set()
+            while stack:
+                x = stack.pop()
+                if x.get_id() in seen:
+                    continue
+                seen.add(x.get_id())
+                if z3.is_app(x):
+                    if x.num_args() == 0 and x.decl().kind() == z3.Z3_OP_UNINTERPRETED:
+                        r.add(x.decl().name())
+                    stack.extend(x.children())
+            cache[i] = r
+        return r
+
+    def slice_hyps(hyps, goal, depth):
+        """cone of influence: keep hypotheses sharing constants (transitively, `depth` steps) with the goal"""
+        rel = set(consts_of(goal))
+        keep = [False] * len(hyps)
+        for _ in range(depth):
+            grew = False
+            for i, h in enumerate(hyps):
+                if keep[i]:
+                    continue
+                c = consts_of(h)
+                if c & rel:
+                    keep[i] = True
+                    if not c <= rel:
+                        rel |= c
+                        grew = True
+            if not grew:
+                break
+        return [h for h, k in zip(hyps, keep) if k]
+
+    def build_qf(relevance):
+        if relevance == "sliced":
+            hy = slice_hyps(list(vc.hyps), vc.goal, 2)
+            extra = list(vc.extra_terms) + list(vc.meta.get("extra_terms", []))
+            insts = inst.instantiate(hy + [vc.goal], vc.schemas, rounds=_ROUNDS, extra_terms=extra, relevance=True)
+            return to_smt2(hy + insts, z3.Not(vc.goal)), len(insts)
+        ground = list(vc.hyps) + [vc.goal]
+        if "goal_terms" in vc.meta:
+            ground.append(vc.meta["goal_terms"] == vc.meta["goal_terms"])
+        extra = list(vc.extra_terms) + list(vc.meta.get("extra_terms", []))
+        insts = inst.instantiate(ground, vc.schemas, rounds=vc.meta.get("rounds", _ROUNDS), extra_terms=extra,
+                                 relevance=relevance)
+        return to_smt2(list(vc.hyps) + insts, z3.Not(vc.goal)), len(insts)
+
+    has_q = any(sc.vars for sc in vc.schemas)
+    qtext = quantified_text(vc) if has_q and not vc.meta.get("no_q") else None
+    r = _race(vc.name, qtext, build_qf, z3_only=vc.meta.get("z3_only", False), budgets=vc.meta)
+    r["idx"] = idx
+    text = r.pop("text", None)
+    r["size"] = len(text) if text else (len(qtext) if qtext else 0)
+    if vc.meta.get("keep_text") or r["verdict"] not in ("unsat",):
+        r["text"] = text or qtext
     return r
 
 
@@ -263,23 +359,3 @@ def solve_vcs(vcs, rounds=2, jobs=None):
     for r in out:
         results[r["idx"]] = r
     return results
-
-
-_POOL = None
-
-
-def pool():
-    global _POOL
-    if _POOL is None:
-        n = int(os.environ.get("PYVC_JOBS", "16"))
-        _POOL = mp.get_context("fork").Pool(n)
-    return _POOL
-
-
-def solve_all(tasks):
-    """Solve tasks (list of dict) in parallel; returns list of result dicts in task order."""
-    if not tasks:
-        return []
-    if os.environ.get("PYVC_SERIAL"):
-        return [solve_text(t) for t in tasks]
-    return pool().map(solve_text, tasks, chunksize=1)
